@@ -120,6 +120,8 @@ func ruleC17(c *Ctx) {
 
 	inputsUnmodified(c, "C17-R5", spT)
 	providerUnmodifiedPaths(c, "C17-R6", spT)
+	c.rule("C17-R7", "results do not share nodes with inputs: each Sign* builds the returned element entirely from its own copy of the argument (shared signPlacement, also C13-R1 / C15-R5) — children taken from the caller's element would make later edits of the result rewrite the input")
+	signPlacement(c, "C17-R7")
 	// package-level variables, who-may-touch, lockset, by-value copies
 	restOfC17(c, spT)
 }
